@@ -20,7 +20,7 @@ import compileall,sys
 sys.exit(0 if compileall.compile_dir('hl7apy', quiet=2, maxlevels=1) else 1)
 PY
 if [ "${SKIP_TESTS:-0}" = "1" ]; then t="353 passed (confirmed earlier; skipped in this re-evaluation)"; else
-t=$(/venv/bin/python -m pytest -q -p no:cacheprovider --timeout=900 2>&1 | tail -1); fi
+t=$(unshare -rn sh -c 'ip link set lo up; /venv/bin/python -m pytest -q -p no:cacheprovider --timeout=900' 2>&1 | tail -1); fi
 case "$t" in *"353 passed"*) tests=pass;; *) t=$(/venv/bin/python -m pytest -q -p no:cacheprovider --timeout=900 2>&1 | tail -1); case "$t" in *"353 passed"*) tests=pass;; *) tests="FAIL: $t";; esac;; esac
 /venv/bin/python _seed/demo.py >/tmp/wtv/$name.demo1.log 2>&1; d1=$?
 echo "SEED $name: demo without change exit=$d0, with change exit=$d1, tests=$tests"
